@@ -111,3 +111,57 @@ func VerifC05ReactCheckpoint() {
 	vassert(out == want, "the resumed agent returns the answer of the uninterrupted run")
 	vassert(len(runs) == 1 && mdl.calls == 2, "the tool ran once and the model was asked twice over both calls")
 }
+
+type c05rAskTool struct {
+	attempts *int
+}
+
+func (t *c05rAskTool) Info(ctx context.Context) (*schema.ToolInfo, error) {
+	return &schema.ToolInfo{Name: "t0"}, nil
+}
+func (t *c05rAskTool) InvokableRun(ctx context.Context, args string, opts ...tool.Option) (string, error) {
+	*t.attempts++
+	if *t.attempts == 1 {
+		return "", compose.InterruptAndRerun
+	}
+	return c18Out("t0", args), nil
+}
+
+// A tool of the ReAct agent asks for interrupt-and-rerun (human approval): the run is interrupted with extractable
+// information, and the resumed run - the tools node is given the assistant message again - answers like a run whose
+// tool did not ask.
+func VerifC05ReactToolRerun() {
+	ctx := context.Background()
+	vcfg("fifo", 1)
+	vcfg("selectfirst", 1)
+	ix := 0
+	mdl := &c18Model{script: []*schema.Message{
+		{Role: schema.Assistant, Content: "call", ToolCalls: []schema.ToolCall{{Index: &ix, ID: "c1", Function: schema.FunctionCall{Name: "t0", Arguments: "x"}}}},
+		{Role: schema.Assistant, Content: "done"},
+	}, chunking: []int{0, 0}}
+	attempts := 0
+	ag, err := NewAgent(ctx, &AgentConfig{ToolCallingModel: mdl, MaxStep: 8,
+		ToolsConfig: compose.ToolsNodeConfig{Tools: []tool.BaseTool{&c05rAskTool{&attempts}}}})
+	vassert(err == nil, "agent is created")
+	g, opts := ag.ExportGraph()
+	parent := compose.NewGraph[[]*schema.Message, *schema.Message]()
+	vassert(parent.AddGraphNode("agent", g, opts...) == nil, "agent graph added")
+	_ = parent.AddEdge(compose.START, "agent")
+	_ = parent.AddEdge("agent", compose.END)
+	store := &c05rStore{m: map[string][]byte{}}
+	r, err := parent.Compile(ctx, compose.WithCheckPointStore(store))
+	vassert(err == nil, "parent graph compiles")
+	in := []*schema.Message{schema.UserMessage("q")}
+	_, e1 := r.Invoke(ctx, in, compose.WithCheckPointID("cp"))
+	_, ok := compose.ExtractInterruptInfo(e1)
+	vassert(ok, "a tool asking for a rerun interrupts the agent with extractable information")
+	if !ok {
+		return
+	}
+	out, e2 := r.Invoke(ctx, in, compose.WithCheckPointID("cp"))
+	vassert(e2 == nil && out != nil && out.Content == "done", "the resumed agent completes with the answer of the uninterrupted run")
+	vassert(attempts == 2 && mdl.calls == 2, "the tool ran once more after the resume and the model was asked twice in all")
+	if len(mdl.seen) == 2 {
+		vassert(len(mdl.seen[1]) == 3 && mdl.seen[1][2].content == c18Out("t0", "x"), "the second model call sees the user message, the assistant message and the tool result, once each")
+	}
+}
